@@ -110,7 +110,8 @@ func (m *Machine) RunPath(entry *ssa.Function, item WorkItem, solver *sym.Solver
 	m.resetSched()
 	solver.Reset()
 	p := &Path{Ctx: sym.NewCtx(), Solver: solver, Prefix: item.Prefix, Covers: map[string]bool{}, Known: map[string]bool{},
-		Notes: map[string]int64{}, MaxDecisions: opt.MaxDecisions, Fallback: m.fallback}
+		Notes: map[string]int64{}, MaxDecisions: opt.MaxDecisions, Fallback: m.fallback,
+		dom: map[*sym.Term]*[4]uint64{}, impure: map[*sym.Term]bool{}, varsOf: map[*sym.Term]*sym.Term{}, ttab: map[*sym.Term]*[4]uint64{}}
 	if len(item.Prefix) == 0 {
 		p.setModel(map[string]uint64{})
 	} else if item.Model != nil {
@@ -133,6 +134,7 @@ func (m *Machine) RunPath(entry *ssa.Function, item WorkItem, solver *sym.Solver
 		res.Steps = m.Steps
 		res.Unknowns = p.Unknowns
 		res.Digest = p.Digest
+		p.Notes["fast_decided"] += int64(p.FastDecided)
 		res.Notes = p.Notes
 		if res.Status == PathDone && p.Status != PathDone {
 			res.Status, res.Detail = p.Status, p.Detail
